@@ -150,6 +150,15 @@ struct Triv {
 };
 static_assert(std::is_trivially_copyable_v<Triv> && std::is_trivially_default_constructible_v<Triv>);
 
+// trivially copyable and trivially destructible, but NOT trivially default constructible (default member initialiser):
+// sizing constructors and reextent must value-initialise it although destruction can be skipped
+struct Semi {
+	i64 v = 0;
+	friend bool operator==(Semi const& a, Semi const& b) { return a.v == b.v; }
+	friend bool operator!=(Semi const& a, Semi const& b) { return a.v != b.v; }
+};
+static_assert(std::is_trivially_destructible_v<Semi> && !std::is_trivially_default_constructible_v<Semi>);
+
 struct ConvTriv {  // convertible to Triv
 	i64 v = 0;
 	operator Triv() const { return Triv{v}; }  // NOLINT
@@ -185,6 +194,20 @@ template<> struct elem_traits<Triv> {
 	static constexpr i64 value_init = 0;
 };
 
+template<> struct elem_traits<Semi> {
+	using E    = Semi;
+	using conv = Semi;
+	static constexpr bool tracked = false, throwing_move = false, trivial = false;
+	static auto make(i64 v) -> E {
+		E e;
+		e.v = v;
+		return e;
+	}
+	static auto make_conv(i64 v) -> conv { return make(v); }
+	static auto read(E const& e, bool& /*ok*/) -> i64 { return e.v; }
+	static void write(E& e, i64 v) { e.v = v; }
+	static constexpr i64 value_init = 0;
+};
 // ---- plain value element types (serialization coverage): no lifetime tracking, values mapped from/to i64
 template<> struct elem_traits<double> {
 	using E    = double;
